@@ -130,7 +130,8 @@ pub enum Obs {
 	Api { step: u64, node: usize, call: String, result: String },
 	BlockConnected { step: u64, height: u32, txids: Vec<Txid> },
 	Relay { step: u64, node: usize, tx: Transaction, verdict: TxVerdict },
-	Restarted { step: u64, node: usize, stale: bool, stale_chans: Vec<usize> },
+	Restarted { step: u64, node: usize, stale: bool, stale_chans: Vec<usize>, /// step at which the manager that was read back had been serialized (None: at the stop)
+		snapshot_step: Option<u64> },
 	Unhandled { step: u64, node: usize, what: String },
 	Probe(Probe),
 }
@@ -155,8 +156,45 @@ pub struct PayRec {
 	pub amt: u64,
 	/// per part: channel indices along the path and the amount the first hop carries
 	pub parts: Vec<(Vec<usize>, u64)>,
+	/// per part: the amount delivered to the recipient
+	pub part_amts: Vec<u64>,
 	pub send_result: String,
 	pub step: u64,
+	/// the inbound-payment registration (at the recipient) this send pays
+	pub reg: usize,
+	/// total_msat declared in the onion (== amt for an ordinary send)
+	pub declared_total: u64,
+	/// whether the secret put in the onion is the one the recipient issued for this hash
+	pub secret_ok: bool,
+	/// workload class ("plain", "mpp", "wrong-secret", …)
+	pub class: &'static str,
+	pub final_cltv: u32,
+	pub height_at_send: u32,
+}
+/// An inbound payment registered at a recipient with `create_inbound_payment`.
+#[derive(Clone, Debug)]
+pub struct Registration {
+	pub idx: usize,
+	pub dst: usize,
+	pub hash: PaymentHash,
+	pub secret: PaymentSecret,
+	pub min_value: Option<u64>,
+	pub step: u64,
+}
+/// How a send deviates from an ordinary single payment of a fresh registration.
+#[derive(Clone, Debug, Default)]
+pub struct SendOpts {
+	/// pay an existing registration (further parts of an MPP) instead of a fresh one
+	pub reg: Option<usize>,
+	/// amount committed to at registration (fresh registration only)
+	pub min_value: Option<u64>,
+	/// total_msat to declare in the onion (default: sum of the parts)
+	pub declared_total: Option<u64>,
+	/// flip this bit of the payment secret
+	pub secret_flip: Option<u8>,
+	/// use the secret of another registration
+	pub secret_of_reg: Option<usize>,
+	pub class: &'static str,
 }
 
 pub struct World {
@@ -171,6 +209,7 @@ pub struct World {
 	pub step: u64,
 	pub claimable: Vec<Claimable>,
 	pub payments: Vec<PayRec>,
+	pub regs: Vec<Registration>,
 	pub script: Vec<String>,
 	pub trace: bool,
 	pub fee_now: u32,
@@ -199,9 +238,9 @@ impl World {
 	pub fn new(seed_rng: Rng, node_cfgs: Vec<NodeCfg>, fee_now: u32, trace: bool) -> World {
 		let log = Arc::new(EvLog::default());
 		log.trace.store(trace && std::env::var("VERIF_TAP_TRACE").is_ok(), Ordering::Relaxed);
-		let best = BlockLocator::from_network(bitcoin::Network::Regtest);
+		let best = BlockLocator::new(bitcoin::constants::genesis_block(bitcoin::Network::Regtest).header.block_hash(), crate::chain::BASE_HEIGHT);
 		let nodes: Vec<Node> = node_cfgs.into_iter().enumerate().map(|(i, c)| Node::new(i, c, &log, fee_now, best.clone())).collect();
-		World { rng: seed_rng, log, log_cursor: 0, nodes, chans: vec![], links: HashMap::new(), chain: Chain::new(), obs: VecDeque::new(), step: 0, claimable: vec![], payments: vec![], script: vec![], trace, fee_now, next_user_id: 1, funding_txs: HashMap::new(), spendable: vec![], watch_counts: HashMap::new(), snapshot_counts: vec![], total_writes: vec![], crashes_handled: 0, writes_at_open: vec![] }
+		World { rng: seed_rng, log, log_cursor: 0, nodes, chans: vec![], links: HashMap::new(), chain: Chain::new(), obs: VecDeque::new(), step: 0, claimable: vec![], payments: vec![], regs: vec![], script: vec![], trace, fee_now, next_user_id: 1, funding_txs: HashMap::new(), spendable: vec![], watch_counts: HashMap::new(), snapshot_counts: vec![], total_writes: vec![], crashes_handled: 0, writes_at_open: vec![] }
 	}
 	pub fn note(&mut self, s: String) {
 		if self.trace {
@@ -795,6 +834,10 @@ impl World {
 	}
 	/// Send a payment along explicit parts. Each part: (channels from src, amount delivered).
 	pub fn send_payment(&mut self, src: usize, parts: &[(Vec<usize>, u64)], final_cltv: u32, min_value: Option<u64>, probe: Option<Probe>) -> Result<usize, String> {
+		self.send_payment_ex(src, parts, final_cltv, SendOpts { min_value, class: if parts.len() > 1 { "mpp" } else { "plain" }, ..Default::default() }, probe)
+	}
+	/// The general form: see `SendOpts`.
+	pub fn send_payment_ex(&mut self, src: usize, parts: &[(Vec<usize>, u64)], final_cltv: u32, opts: SendOpts, probe: Option<Probe>) -> Result<usize, String> {
 		let total: u64 = parts.iter().map(|p| p.1).sum();
 		let mut paths = vec![];
 		let mut dst = src;
@@ -803,7 +846,26 @@ impl World {
 			paths.push(p);
 			dst = d;
 		}
-		let (hash, secret, _) = self.nodes[dst].mgr.create_inbound_payment(min_value, 7200, None, None).map_err(|_| "create_inbound_payment failed".to_string())?;
+		let reg = match opts.reg {
+			Some(r) => r,
+			None => {
+				let (hash, secret, _) = self.nodes[dst].mgr.create_inbound_payment(opts.min_value, 7200, None, None).map_err(|_| "create_inbound_payment failed".to_string())?;
+				self.regs.push(Registration { idx: self.regs.len(), dst, hash, secret, min_value: opts.min_value, step: self.step });
+				self.regs.len() - 1
+			},
+		};
+		let hash = self.regs[reg].hash;
+		let mut secret = self.regs[reg].secret;
+		let mut secret_ok = true;
+		if let Some(o) = opts.secret_of_reg {
+			secret = self.regs[o].secret;
+			secret_ok = o == reg;
+		}
+		if let Some(bit) = opts.secret_flip {
+			secret.0[(bit / 8) as usize] ^= 1 << (bit % 8);
+			secret_ok = false;
+		}
+		let declared = opts.declared_total.unwrap_or(total);
 		let dst_id = self.nodes[dst].id;
 		let route = Route { paths, route_params: RouteParameters { payment_params: PaymentParameters::from_node_id(dst_id, final_cltv), final_value_msat: total, max_total_routing_fee_msat: None } };
 		let id = self.new_payment_id();
@@ -813,10 +875,15 @@ impl World {
 			self.obs.push_back(Obs::Probe(p));
 		}
 		let first_amts: Vec<u64> = route.paths.iter().map(|p| p.hops.iter().map(|h| h.fee_msat).sum()).collect();
-		let r = self.nodes[src].mgr.send_payment_with_route(route, hash, RecipientOnionFields::secret_only(secret, total), id);
+		let height = self.chain.height();
 		let idx = self.payments.len();
+		// (the record exists before the call so that monitors can attribute the HTLCs the call emits)
+		self.payments.push(PayRec { idx, id, hash, secret, src, dst, amt: total, parts: parts.iter().zip(first_amts.iter()).map(|(p, f)| (p.0.clone(), *f)).collect(), part_amts: parts.iter().map(|p| p.1).collect(), send_result: String::new(), step: self.step, reg, declared_total: declared, secret_ok, class: if opts.class.is_empty() { "plain" } else { opts.class }, final_cltv, height_at_send: height });
+		self.obs.push_back(Obs::Api { step: self.step, node: src, call: format!("sending_payment#{}", idx), result: String::new() });
+		let r = self.nodes[src].mgr.send_payment_with_route(route, hash, RecipientOnionFields::secret_only(secret, declared), id);
 		let res = format!("{:?}", r);
-		self.payments.push(PayRec { idx, id, hash, secret, src, dst, amt: total, parts: parts.iter().zip(first_amts.iter()).map(|(p, f)| (p.0.clone(), *f)).collect(), send_result: res.clone(), step: self.step });
+		self.payments[idx].send_result = res.clone();
+		self.drain_taps();
 		self.obs.push_back(Obs::Api { step: self.step, node: src, call: format!("send_payment#{} amt={} parts={}", idx, total, parts.len()), result: res.clone() });
 		self.pump(src);
 		if r.is_ok() {
@@ -824,6 +891,36 @@ impl World {
 		} else {
 			Err(res)
 		}
+	}
+	/// A second send under the payment id of payment `k` (must be refused while `k` is pending).
+	pub fn dup_send(&mut self, k: usize) {
+		let p = self.payments[k].clone();
+		let mut paths = vec![];
+		for ((chans, _), amt) in p.parts.iter().zip(p.part_amts.iter()) {
+			paths.push(self.build_path(p.src, chans, *amt, p.final_cltv, None).0);
+		}
+		let dst_id = self.nodes[p.dst].id;
+		let route = Route { paths, route_params: RouteParameters { payment_params: PaymentParameters::from_node_id(dst_id, p.final_cltv), final_value_msat: p.amt, max_total_routing_fee_msat: None } };
+		let pending = self.nodes[p.src].mgr.list_recent_payments().iter().any(|d| matches!(d, lightning::ln::channelmanager::RecentPaymentDetails::Pending { payment_id, .. } if *payment_id == p.id));
+		if !pending {
+			return; // (once the id is free again a send under it is a new payment)
+		}
+		let r = self.nodes[p.src].mgr.send_payment_with_route(route, p.hash, RecipientOnionFields::secret_only(p.secret, p.declared_total), p.id);
+		self.drain_taps();
+		self.obs.push_back(Obs::Api { step: self.step, node: p.src, call: format!("dup_send#{} listed_pending={}", k, pending), result: format!("{:?}", r) });
+		self.pump(p.src);
+	}
+	/// Process pending events with a handler that refuses the event at position `fail_at`.
+	pub fn process_events_failing(&mut self, n: usize, fail_at: usize) -> usize {
+		let evs = self.nodes[n].events_failing(fail_at);
+		self.drain_taps();
+		let cnt = evs.len();
+		self.obs.push_back(Obs::Api { step: self.step, node: n, call: format!("event handler refused the event at position {}", fail_at), result: String::new() });
+		for e in evs {
+			self.handle_event(n, e);
+		}
+		self.pump(n);
+		cnt
 	}
 	pub fn claim(&mut self, k: usize) {
 		let c = self.claimable.remove(k);
@@ -863,6 +960,7 @@ impl World {
 				}
 			}
 		}
+		let snapshot_step: Option<u64> = snapshot.and_then(|k| { let sn = &self.nodes[n].snapshots; sn.get(k.min(sn.len().saturating_sub(1))).map(|x| x.0) });
 		let (mgr_bytes, stale) = match snapshot {
 			None => (self.nodes[n].mgr.encode(), false),
 			Some(k) => {
@@ -910,7 +1008,7 @@ impl World {
 		}
 		self.drain_taps();
 		let _ = stale;
-		self.obs.push_back(Obs::Restarted { step: self.step, node: n, stale: snapshot.is_some(), stale_chans: stale_chans.clone() });
+		self.obs.push_back(Obs::Restarted { step: self.step, node: n, stale: snapshot.is_some(), stale_chans: stale_chans.clone(), snapshot_step });
 		// 4. bring every object to the chain tip from its own best block
 		self.resync_node(n);
 		self.pump(n);
@@ -935,7 +1033,7 @@ impl World {
 		let node = &self.nodes[n];
 		let mgr_h = node.mgr.current_best_block().height;
 		for h in (mgr_h + 1)..=tip {
-			let b = &self.chain.blocks[h as usize];
+			let b = self.chain.block_at(h);
 			let txdata: Vec<(usize, &Transaction)> = b.txs.iter().enumerate().map(|(i, t)| (i + 1, t)).collect();
 			node.mgr.transactions_confirmed(&b.header, &txdata, b.height);
 			node.mgr.best_block_updated(&b.header, b.height);
@@ -944,7 +1042,7 @@ impl World {
 			if let Ok(m) = node.mon.get_monitor(cid) {
 				let mh = m.current_best_block().height;
 				for h in (mh + 1)..=tip {
-					let b = &self.chain.blocks[h as usize];
+					let b = self.chain.block_at(h);
 					let txdata: Vec<(usize, &Transaction)> = b.txs.iter().enumerate().map(|(i, t)| (i + 1, t)).collect();
 					m.transactions_confirmed(&b.header, &txdata, b.height, &*node.bcast, &*node.fee, &*node.logger);
 					m.best_block_updated(&b.header, b.height, &*node.bcast, &*node.fee, &*node.logger);
@@ -1016,9 +1114,9 @@ pub fn ev_name(e: &Event) -> String {
 	match e {
 		Event::PaymentClaimable { amount_msat, .. } => format!("PaymentClaimable amt={}", amount_msat),
 		Event::PaymentClaimed { amount_msat, .. } => format!("PaymentClaimed amt={}", amount_msat),
-		Event::PaymentSent { fee_paid_msat, .. } => format!("PaymentSent fee={:?}", fee_paid_msat),
-		Event::PaymentFailed { reason, .. } => format!("PaymentFailed {:?}", reason),
-		Event::PaymentPathFailed { short_channel_id, payment_failed_permanently, .. } => format!("PaymentPathFailed scid={:?} permanent={}", short_channel_id, payment_failed_permanently),
+		Event::PaymentSent { fee_paid_msat, payment_id, .. } => format!("PaymentSent fee={:?} id#{}", fee_paid_msat, payment_id.map(|i| i.0[0] as u64 + 256 * i.0[1] as u64).unwrap_or(0)),
+		Event::PaymentFailed { reason, payment_id, .. } => format!("PaymentFailed {:?} id#{}", reason, payment_id.0[0] as u64 + 256 * payment_id.0[1] as u64),
+		Event::PaymentPathFailed { short_channel_id, payment_failed_permanently, payment_id, .. } => format!("PaymentPathFailed scid={:?} permanent={} id#{}", short_channel_id, payment_failed_permanently, payment_id.map(|i| i.0[0] as u64 + 256 * i.0[1] as u64).unwrap_or(0)),
 		Event::PaymentForwarded { total_fee_earned_msat, claim_from_onchain_tx, .. } => format!("PaymentForwarded fee={:?} onchain={}", total_fee_earned_msat, claim_from_onchain_tx),
 		Event::ChannelClosed { reason, .. } => format!("ChannelClosed {:?}", reason),
 		Event::HTLCHandlingFailed { failure_type, failure_reason, .. } => format!("HTLCHandlingFailed {:?} {:?}", failure_type, failure_reason),
